@@ -152,6 +152,28 @@ pub fn pw_op_exists(tag: &str, level: &str, op: &str) -> bool {
     r
 }
 
+/// does `&Piecewise<T> + &Piecewise<T>` exist for the piece type named by `tag`?
+pub fn merge_exists(tag: &str) -> bool {
+    use std::collections::HashMap;
+    use std::sync::{Mutex, OnceLock};
+    static CACHE: OnceLock<Mutex<HashMap<String, bool>>> = OnceLock::new();
+    let m = CACHE.get_or_init(|| Mutex::new(HashMap::new()));
+    if let Some(v) = m.lock().unwrap().get(tag) {
+        return *v;
+    }
+    let n = match crate::types::tag_len(tag) {
+        usize::MAX => 3,
+        n => n,
+    };
+    let c = Case::new("mergeraw", tag)
+        .set("op", Val::S("add".into()))
+        .set("f", Val::Pw(vec![(1.0, vec![1.0; n])]))
+        .set("g", Val::Pw(vec![(2.0, vec![1.0; n])]));
+    let r = run_impl(&c).iter().any(|(k, v)| k == "impl" && v != "NOIMPL");
+    m.lock().unwrap().insert(tag.to_string(), r);
+    r
+}
+
 /// Runs the real code; returns the output fields (`impl`, and the reference fields monitors use).
 pub fn run_impl(c: &Case) -> Vec<(String, String)> {
     if let Some(v) = crate::extra::run_extra(c) {
@@ -279,8 +301,67 @@ pub fn run_impl(c: &Case) -> Vec<(String, String)> {
                 "sub" => (&pr).op_sub(p(), q(), &show),
                 "addassign" => (&pr).op_addassign(p(), q(), &show),
                 "subassign" => (&pr).op_subassign(p(), q(), &show),
+                "refadd" => (&pr).op_refadd(p(), q(), &show),
+                "refsub" => (&pr).op_refsub(p(), q(), &show),
+                "refmul" => (&pr).op_refmul(p(), c.fl("s"), &show),
+                "refneg" => (&pr).op_refneg(p(), &show),
                 _ => None,
             }));
+            match r {
+                Ok(Some(v)) => v,
+                Ok(None) => "NOIMPL".to_string(),
+                Err(_) => "PANIC".to_string(),
+            }
+        }),
+        // `&Piecewise<T> + &Piecewise<T>` / `-` for EVERY piece type for which it exists (today only IntOfLogPoly4):
+        // judged on the implementation's own outputs - well-formed result, and at every breakpoint (and next to it)
+        // result(x) = f(x) +- g(x) up to coefficient rounding
+        "mergeraw" => with_all!(tag, T => {
+            #[allow(unused_imports)]
+            use crate::probe::*;
+            let pr = Probe::<Piecewise<T>>::new();
+            let sub = c.st("op") == "sub";
+            let f = pw_to::<T>(c.pw("f"));
+            let g = pw_to::<T>(c.pw("g"));
+            let (f2, g2) = (pw_to::<T>(c.pw("f")), pw_to::<T>(c.pw("g")));
+            let show = |t: &Piecewise<T>| {
+                let ends: Vec<f64> = t.segments.iter().map(|s| s.end).collect();
+                let mut ok = !ends.is_empty() && ends.windows(2).all(|w| w[0] <= w[1]) && ends.len() + 1 <= f2.segments.len() + g2.segments.len()
+                    && ends.iter().all(|e| f2.segments.iter().any(|s| s.end.to_bits() == e.to_bits()) || g2.segments.iter().any(|s| s.end.to_bits() == e.to_bits()));
+                if ok {
+                    let mut pts = vec![f64::NEG_INFINITY, f64::INFINITY];
+                    for s in f2.segments.iter().chain(g2.segments.iter()) {
+                        pts.extend_from_slice(&[crate::gen::next_down(s.end), s.end, crate::gen::next_up(s.end)]);
+                    }
+                    for x in pts.into_iter().take(600) {
+                        if x.is_nan() {
+                            continue;
+                        }
+                        // the pieces f and g select at x (C02), combined by the PIECE-level by-reference operator (which exists
+                        // whenever the piecewise one does), evaluated at x: the merged function must return exactly that
+                        let sel = |p: &Piecewise<T>| -> T {
+                            let s = p.segments.iter().find(|s| s.end > x).unwrap_or_else(|| p.segments.last().unwrap());
+                            T::from_nums(&s.poly.to_nums())
+                        };
+                        let pp = Probe::<T>::new();
+                        let ev = |t: &T| hx(t.evaluate(x));
+                        let want = if sub { (&pp).op_refsub(sel(&f2), sel(&g2), &ev) } else { (&pp).op_refadd(sel(&f2), sel(&g2), &ev) };
+                        let got = t.evaluate(x);
+                        match want {
+                            Some(w) => {
+                                let wv = f64::from_bits(u64::from_str_radix(&w, 16).unwrap_or(0));
+                                if !(wv.to_bits() == got.to_bits() || (wv.is_nan() && got.is_nan())) {
+                                    ok = false;
+                                    break;
+                                }
+                            }
+                            None => {}
+                        }
+                    }
+                }
+                if ok { "1".to_string() } else { "0".to_string() }
+            };
+            let r = catch_unwind(AssertUnwindSafe(|| if sub { (&pr).op_refsub(f, g, &show) } else { (&pr).op_refadd(f, g, &show) }));
             match r {
                 Ok(Some(v)) => v,
                 Ok(None) => "NOIMPL".to_string(),
